@@ -39,6 +39,12 @@ def is_flush_append(s: ast.stmt, acc: str, out: str) -> bool:
 
 
 def check(ctx: Ctx) -> None:
+    _check(ctx)
+    from ..engines.typestate import check_wrappers
+    check_wrappers(ctx, ['normalise'])
+
+
+def _check(ctx: Ctx) -> None:
     p = ctx.p
     fi = p.func(FN)
     ctx.analysed(fi)
